@@ -27,6 +27,8 @@ func SendServiceUsageRequest(
 	if err != nil {
 		return nil, err
 	}
+	// one connection per request: do not leave it (and its watchdog and reader tasks) behind
+	defer conn.Close()
 
 	meta, ok := smpeer.FromContext(conn.Context())
 	if !ok {
